@@ -20,6 +20,9 @@ RULE = (
     "Quick: every item of the small item sets. Outcome from the event log: raised to the caller (held) / returned normally / stuck "
     "(protocol-state predicate) -> violation; wall-clock watchdog -> inconclusive. A case counts only if the fault_injected event is in "
     "the log. Non-trivial: k>=2; distinct by (stage, k, item, exception type, profile)."
+    ' Also: failures after 0.25-1.5 s (late), of every item, while loading an input, as an unpicklable exception, as a signal death (SI'
+    'GKILL/SIGSEGV/SIGABRT), as ENOSPC/EIO/EMFILE inside Image.save / load_path during a real cascade (source-free failpoints); sibling'
+    's terminated inside Event.is_set; a stage that returns while the failing item is still in progress is a violation.'
 )
 ASSUMPTIONS = ["stuck state is decided on protocol state (no enabled transition) at two polls with equal progress counters"]
 EXHAUSTIVE = {"quick": "every item of: walk depth-2 generic (5 parents), leaves depth-1 and depth-2 (4+16), transform depth-1 (5 tiles)",
